@@ -212,4 +212,136 @@ theorem chain_refines_kept (e : Env) (g s0 : St) (ops : List HOp) (he : EnvOK e 
     (hh : HistOK e g s0 (keptOps e s0 ops)) : Inv e g (hrun e s0 ops) :=
   chain_refines e g s0 ops he h0 ((histOK_keptOps e g ops s0).mpr hh)
 
+-- a failing walk is NOT a no-op (the property speaks of a failed walk STEP): the full statement, refuted in the examples
+-- at the end of this section once the example environment is defined
+
+-- ====================================================================================================================
+--                              2. a failing walk: its failing STEP writes nothing
+-- ====================================================================================================================
+
+open XV.Crash in
+/-- **a failing walk stops at a block boundary.** If `walk` reports failure, there are a prefix `u` of the undo list and a
+prefix `t` of the apply list (`undoTodo`) such that the returned state is exactly
+`replayChain t (undoRun u (rolledBack s))` — the pool roll-back batch, the undo batches of `u`, the apply batches of `t`, each
+of which completed (`walk.undoAll` over `u` and `walk.todoAll` over `t` report success and return these states) — with the
+batch of the failing step ABSENT: either nothing was applied (`t = []`), the next block `b` of the undo list lies at or below
+the irreversible height of the returned state and the walk is not pruning (undo refused); or the undo list was completed
+(`ru = []`) and `todoBlock` returns nothing for the next block `b` of the apply list on the returned state (block refused:
+duplicated input, or a transaction that does not pass admission, at any position of the block). The pool of the returned
+state is empty (it stays rolled back) and its pointer is the last block of those steps: the id of the last applied block,
+else the parent of the last undone block, else the pointer the walk started from. -/
+theorem walk_fail_is_block_boundary (e : Env) (s : St) (lh : Int) (dest : Nat) (prune : Bool)
+    (hf : (walk e s lh dest prune).2 = false) :
+    ∃ u t ru rt,
+      (undoTodo e s.pointer dest).1 = u ++ ru ∧ (undoTodo e s.pointer dest).2 = t ++ rt ∧
+      (walk e s lh dest prune).1 = replayChain e t (undoRun e prune u (rolledBack e s)) ∧
+      walk.undoAll e prune u (rolledBack e s) = (undoRun e prune u (rolledBack e s), true) ∧
+      walk.todoAll e lh t (undoRun e prune u (rolledBack e s)) =
+        (replayChain e t (undoRun e prune u (rolledBack e s)), true) ∧
+      ((t = [] ∧ ∃ b r, ru = b :: r ∧ prune = false ∧
+          ((e.block b).height : Int) ≤ (walk e s lh dest prune).1.irrev) ∨
+       (ru = [] ∧ ∃ b r, rt = b :: r ∧ todoBlock e (walk e s lh dest prune).1 lh (e.block b) = none)) ∧
+      (walk e s lh dest prune).1.pool = [] ∧
+      (walk e s lh dest prune).1.pointer = stepsPointer e s.pointer u t := by
+  have hc : (walkCore e s lh dest prune).2 = false := by rw [← walk_ok_iff_core]; exact hf
+  have hw : (walk e s lh dest prune).1 = (walkCore e s lh dest prune).1 := by
+    rw [walk_eq_core, hc]; rfl
+  rw [hw]
+  have hcore : walkCore e s lh dest prune =
+      if (!(walk.undoAll e prune (undoTodo e s.pointer dest).1 (rolledBack e s)).2) = true then
+        ((walk.undoAll e prune (undoTodo e s.pointer dest).1 (rolledBack e s)).1, false)
+      else walk.todoAll e lh (undoTodo e s.pointer dest).2
+        (walk.undoAll e prune (undoTodo e s.pointer dest).1 (rolledBack e s)).1 := rfl
+  cases h1 : (walk.undoAll e prune (undoTodo e s.pointer dest).1 (rolledBack e s)).2 with
+  | false =>
+    obtain ⟨u, b, r, hl, hrun, hp, hle, hres⟩ := undoAll_fail_split e prune _ _ h1
+    have hval : (walkCore e s lh dest prune).1 = undoRun e prune u (rolledBack e s) := by
+      rw [hcore, h1, hres]; rfl
+    rw [hval]
+    refine ⟨u, [], b :: r, (undoTodo e s.pointer dest).2, hl, rfl, rfl, hrun, rfl,
+      Or.inl ⟨rfl, b, r, rfl, hp, hle⟩, ?_, ?_⟩
+    · rw [undoRun_pool]; rfl
+    · have hptr := undoAll_pointer' e prune u (rolledBack e s) (by rw [hrun])
+      rw [hrun, rolledBack_pointer] at hptr
+      unfold stepsPointer
+      simp only [List.getLast?_nil]
+      rw [hptr]
+      cases u.getLast? <;> rfl
+  | true =>
+    have hU := undoAll_ok_eq e prune _ _ h1
+    have hval : walkCore e s lh dest prune = walk.todoAll e lh (undoTodo e s.pointer dest).2
+        (undoRun e prune (undoTodo e s.pointer dest).1 (rolledBack e s)) := by
+      rw [hcore, h1, hU]; rfl
+    rw [hval] at hc ⊢
+    obtain ⟨t, b, r, hl, hrun, hnone, hres⟩ := todoAll_fail_split e lh _ _ hc
+    rw [hres]
+    refine ⟨(undoTodo e s.pointer dest).1, t, [], b :: r, by simp, hl, rfl, hU, hrun,
+      Or.inr ⟨rfl, b, r, rfl, hnone⟩, ?_, ?_⟩
+    · show (replayChain e t _).pool = []
+      rw [replayChain_pool, undoRun_pool]; rfl
+    · show (replayChain e t _).pointer = _
+      have hpt := todoAll_pointer e lh t _ (by rw [hrun])
+      rw [hrun] at hpt
+      have hpu := undoAll_pointer' e prune (undoTodo e s.pointer dest).1 (rolledBack e s) (by rw [hU])
+      rw [hU, rolledBack_pointer] at hpu
+      simp only at hpt hpu
+      rw [hpt]
+      unfold stepsPointer
+      cases t.getLast? with
+      | some bl => rfl
+      | none =>
+        simp only
+        rw [hpu]
+        cases (undoTodo e s.pointer dest).1.getLast? <;> rfl
+
+open XV.Crash in
+/-- **with the C01 invariant: the state after a failed walk is the canonical state of the block its pointer names, with an
+empty pool** — what a fresh node obtains by playing genesis..pointer (`canon`), table by table (`TRefines`: every UTXO row,
+the current version of every key, the total, the live key table row by row); so nothing a client can observe is left of
+the failing step, the node is merely at an intermediate block of the path, and the invariant of `chain_refines` holds
+there again. This is a COROLLARY of C01: `hstep` treats `.walk` by `walk` whatever its verdict and `step_invariant` /
+`chain_refines` cover the failing case (C01 `inv_walk_fail`); what is added here is that the pool is empty (from
+`walk_fail_is_block_boundary`), which turns "canonical state + pool" into "canonical state". The skip list plays no role
+when the walk fails. -/
+theorem failed_walk_canonical (e : Env) (g s : St) (lh : Int) (dest : Nat) (prune : Bool) (skip : List Nat)
+    (he : EnvOK e g) (h : Inv e g s) (hdest : dest ∈ e.blocks.map (·.1))
+    (hf : (walk (e.withSkip skip) s lh dest prune).2 = false) :
+    Inv e g (walk (e.withSkip skip) s lh dest prune).1 ∧
+    (walk (e.withSkip skip) s lh dest prune).1.pool = [] ∧
+    (walk (e.withSkip skip) s lh dest prune).1.pointer ∈ e.blocks.map (·.1) ∧
+    ChainValid e (ancestors e (e.blocks.length + 1) (walk (e.withSkip skip) s lh dest prune).1.pointer).reverse g ∧
+    TRefines (walk (e.withSkip skip) s lh dest prune).1
+      (canon e g (walk (e.withSkip skip) s lh dest prune).1.pointer) := by
+  have hc : (walkCore e s lh dest prune).2 = false := by rw [← walk_withSkip_ok e skip]; exact hf
+  have hany : ∀ l, (walk (e.withSkip l) s lh dest prune).1 = (walkCore e s lh dest prune).1 := by
+    intro l; rw [walk_withSkip, hc]; rfl
+  have hinv : Inv e g (hstep e s (.walk lh dest prune s.pool)) :=
+    step_invariant e g s (.walk lh dest prune s.pool) he h ⟨hdest, fun i hi _ => hi⟩
+  have hinv' : Inv e g (walk (e.withSkip skip) s lh dest prune).1 := by
+    rw [hany skip, ← hany s.pool]; exact hinv
+  obtain ⟨_, _, _, _, _, _, _, _, _, _, hpool, _⟩ := walk_fail_is_block_boundary (e.withSkip skip) s lh dest prune hf
+  refine ⟨hinv', hpool, hinv'.known, hinv'.chain, ?_⟩
+  have := hinv'.refines
+  rw [hpool] at this
+  exact this
+
+/-- **the same inside any history**: whenever operation `k` of a history (hypotheses of `chain_refines`) is a walk that
+fails, the node stands, right after it, on the canonical state of a registered block with an empty pool — and the rest of
+the history continues from there under the invariant -/
+theorem history_failed_walk_canonical (e : Env) (g s0 : St) (ops : List HOp) (he : EnvOK e g) (h0 : Inv e g s0)
+    (hh : HistOK e g s0 ops) (k : Nat) (lh : Int) (dest : Nat) (prune : Bool) (skip : List Nat)
+    (hk : ops[k]? = some (.walk lh dest prune skip))
+    (hf : hopFails e (hrun e s0 (ops.take k)) (.walk lh dest prune skip) = true) :
+    (hrun e s0 (ops.take (k + 1))).pool = [] ∧
+    (hrun e s0 (ops.take (k + 1))).pointer ∈ e.blocks.map (·.1) ∧
+    TRefines (hrun e s0 (ops.take (k + 1))) (canon e g (hrun e s0 (ops.take (k + 1))).pointer) ∧
+    Inv e g (hrun e s0 (ops.take (k + 1))) := by
+  obtain ⟨hpre, hop⟩ := histOK_take e g ops s0 k hh
+  have hinv := chain_refines e g s0 (ops.take k) he h0 hpre
+  obtain ⟨hdest, _⟩ := hop _ hk
+  rw [hrun_take_succ e s0 ops k _ hk]
+  simp only [hopFails, Bool.not_eq_eq_eq_not, Bool.not_true] at hf
+  obtain ⟨a, b, c, _, d⟩ := failed_walk_canonical e g _ lh dest prune skip he hinv hdest hf
+  exact ⟨b, c, d, a⟩
+
 end XV.C05
